@@ -110,9 +110,10 @@ def run(chk):
         ok = False
         for a, t in atomic_facts(flow, n):
             a = strip_casts(a)
-            if a.get("k") == "binop" and a.get("op") in ("<", ">", "<=", ">=") and t:
-                txt = expr_str(prog, f, a)
-                if "size" in txt and any(mentions_same(prog, f, a, idx_expr, locs) for _ in [0]):
+            if a.get("k") == "binop" and a.get("op") in ("<", ">") and t:
+                # exact bound: `index-variable < container.size()` (or mirrored); `<=` would admit one slot too many
+                small, big = (a["lhs"], a["rhs"]) if a["op"] == "<" else (a["rhs"], a["lhs"])
+                if "size" in expr_str(prog, f, big) and "size" not in expr_str(prog, f, small) and mentions_same(prog, f, small, idx_expr, locs):
                     ok = True
         r2.ob("get_object: %s(%s) under a size comparison" % (what, expr_str(prog, f, idx_expr)[:40]), ok, "%s:%d" % (f["file"], n["l"]), f["q"],
               "index derived from the cached location is used without a bounds test: a node evaluated again on a shallower stack / smaller scope reads out of range")
@@ -121,20 +122,7 @@ def run(chk):
     # ------------------------------------------------------------------ R4.3
     r3 = chk.rule("R4.3", "QuickFlatMap::find(key, hint) returns the hinted position only when it exists and holds the key",
                   "function and global lookups through hints are exact")
-    hf = [g for g in lookups if g["name"] == "find" and len(g["params"]) == 2]
-    r3.anchor(hf, "QuickFlatMap::find(s, hint)")
-    seen3 = set()
-    for g in hf:
-        flow = FnFlow(g)
-        for n in walk(g["body"]):
-            if n.get("k") == "return" and "next" in expr_str(prog, g, n.get("e") or {}):
-                facts = [(expr_str(prog, g, a), t) for a, t in atomic_facts(flow, n)]
-                ok = any("size" in s and ">" in s and "t_hint" in s and t for s, t in facts) and any(("comparator" in s or "==" in s) and t for s, t in facts)
-                if ok in seen3:
-                    continue
-                seen3.add(ok)
-                r3.ob("QuickFlatMap::find/hinted return under size > hint && key comparison", ok, "%s:%d" % (g["file"], n["l"]), g["q"], "facts: %s" % facts)
-        chk.touched([g])
+    hinted_find(chk, r3, prog, lookups)
     r3.require(1, "hinted returns")
 
     # ------------------------------------------------------------------ R4.4
@@ -189,3 +177,23 @@ def mentions_same(prog, f, cond, idx_expr, locs):
         if v is not None and v.get("init") is not None and expr_str(prog, f, v["init"]) in expr_str(prog, f, idx_expr):
             return True
     return False
+
+
+def hinted_find(chk, r3, prog, lookups=None):
+    """QuickFlatMap::find(key, hint): the hinted position is returned only under `size > hint` and the key comparison"""
+    if lookups is None:
+        lookups = [f for f in prog.fns if f["tk"] != "pattern" and strip_targs(f.get("cls") or "") == "chaiscript::utility::QuickFlatMap" and f["name"] == "find"]
+    hf = [g for g in lookups if g["name"] == "find" and len(g["params"]) == 2]
+    r3.anchor(hf, "QuickFlatMap::find(s, hint)")
+    seen3 = set()
+    for g in hf:
+        flow = FnFlow(g)
+        for n in walk(g["body"]):
+            if n.get("k") == "return" and "next" in expr_str(prog, g, n.get("e") or {}):
+                facts = [(expr_str(prog, g, a), t) for a, t in atomic_facts(flow, n)]
+                ok = any("size" in s and ">" in s and "t_hint" in s and t for s, t in facts) and any(("comparator" in s or "==" in s) and t for s, t in facts)
+                if ok in seen3:
+                    continue
+                seen3.add(ok)
+                r3.ob("QuickFlatMap::find/hinted return under size > hint && key comparison", ok, "%s:%d" % (g["file"], n["l"]), g["q"], "facts: %s" % facts)
+        chk.touched([g])
